@@ -60,7 +60,10 @@ func (ServiceTimeoutError) Error() string {
 }
 
 func (s *Service) getInfo(ctx context.Context, c Call) error {
-	return c.replyGetInfo(ctx, s.vendor, s.product, s.version, s.url, s.names)
+	s.mutex.Lock()
+	names := append([]string{}, s.names...)
+	s.mutex.Unlock()
+	return c.replyGetInfo(ctx, s.vendor, s.product, s.version, s.url, names)
 }
 
 func (s *Service) getInterfaceDescription(ctx context.Context, c Call, name string) error {
@@ -68,7 +71,9 @@ func (s *Service) getInterfaceDescription(ctx context.Context, c Call, name stri
 		return c.ReplyInvalidParameter(ctx, "interface")
 	}
 
+	s.mutex.Lock()
 	description, ok := s.descriptions[name]
+	s.mutex.Unlock()
 	if !ok {
 		return c.ReplyInvalidParameter(ctx, "interface")
 	}
@@ -103,7 +108,9 @@ func (s *Service) HandleMessage(ctx context.Context, conn ReadWriterContext, req
 	}
 
 	// Find the interface and method in our service
+	s.mutex.Lock()
 	iface, ok := s.interfaces[interfacename]
+	s.mutex.Unlock()
 	if !ok {
 		return c.ReplyInterfaceNotFound(ctx, interfacename)
 	}
@@ -357,15 +364,19 @@ func (s *Service) DoListen(ctx context.Context, timeout time.Duration) error {
 // RegisterInterface registers a varlink.Interface containing struct to the Service
 func (s *Service) RegisterInterface(iface dispatcher) error {
 	name := iface.VarlinkGetName()
+	description := iface.VarlinkGetDescription()
+
+	s.mutex.Lock()
+	defer s.mutex.Unlock()
 	if _, ok := s.interfaces[name]; ok {
 		return fmt.Errorf("interface '%s' already registered", name)
 	}
 
-	if s.isRunning() {
+	if s.running {
 		return fmt.Errorf("service is already running")
 	}
 	s.interfaces[name] = iface
-	s.descriptions[name] = iface.VarlinkGetDescription()
+	s.descriptions[name] = description
 	s.names = append(s.names, name)
 
 	return nil
